@@ -554,6 +554,9 @@ class ShortTimeFourierTransformFrameComputer(LinearFilterBankFrameComputer):
             num_frames -= pad_left
             pad_left = 0
         num_frames //= frame_shift
+        if self._first_frame and buf_len < frame_length // 2 + 1:
+            # the whole signal is too short for compute_full to yield a frame
+            num_frames = 0
         if num_frames >= 1:
             pad_right = (num_frames - 1) * frame_shift + frame_length - buf_len
             pad_right -= pad_left
